@@ -151,3 +151,12 @@ Theorem C07_workload_event_wakes_a_referencing_rollout : forall ros w r, In r ro
   exists r', Events.ro_on_workload_event ros w = [Events.rf_name r'] /\ In r' ros /\ Events.ro_targets w r' = true.
 Proof. exact Proofs.Events.workload_event_wakes_a_referencing_rollout. Qed.
 Print Assumptions C07_workload_event_wakes_a_referencing_rollout.
+
+(* the TrafficRouting controller watches only its own objects: a reconcile that leaves an object in the Finalizing phase
+   without an error has asked for a requeue (otherwise nothing would ever finish the clean-up) *)
+From RV Require Model.TRCtl Proofs.TRCtl.
+Theorem C07_trafficrouting_finalizing_never_goes_quiet : forall o n g,
+  TRCtl.to_deleting o = false -> TRCtl.ro_phase (TRCtl.tr_reconcile o n g) = TRCtl.TpFinalizing -> TRCtl.ro_err (TRCtl.tr_reconcile o n g) = false ->
+  TRCtl.ro_requeue (TRCtl.tr_reconcile o n g) = true \/ TRCtl.to_phase o <> TRCtl.TpFinalizing.
+Proof. exact Proofs.TRCtl.tr_finalizing_never_goes_quiet. Qed.
+Print Assumptions C07_trafficrouting_finalizing_never_goes_quiet.
